@@ -63,6 +63,45 @@ package diskwriter
 //@   assert at call some shifted: valid(tt.origin) && arg_value == uint32(tt.origin) + uint32(callresult("FromDuration", 1))
 //@   assert at call FromDuration own-clock: arg_d == callresult("ToDuration", 1) && arg_hz == icall("conn.UpTrack.Codec", tt.remote).ClockRate
 //@
+//@ -- C20: stopping the recording or the departure of the publisher flushes and closes the file: when close returns, no track is left
+//@ -- with an open writer (a writer that is never closed keeps the file open and unfinished)
+//@ func (*diskTrack).writeBuffered
+//@   trusted
+//@   why diskwriter.go: pops samples from the sample builder and writes them; the first keyframe (or audio sample of an audio-only connection)
+//@       opens the file through initWriter, which creates a writer for EVERY track of the connection; may also close and reopen the file.
+//@       Keeps the connection's list of tracks and its lock.
+//@   requires nonnil: t != nil
+//@   modifies *
+//@   ensures keeps: keepstrack(t) && same(t.conn.tracks, old(t.conn.tracks))
+//@   ensures keeps-tracks: forall k int :: 0 <= k && k < len(t.conn.tracks) ==> t.conn.tracks[k] == old(t.conn.tracks[k])
+//@        && t.conn.tracks[k].conn == old(t.conn.tracks[k].conn) && t.conn.tracks[k].remote == old(t.conn.tracks[k].remote)
+//@
+//@ iface mkvcore.BlockWriteCloser.Close
+//@   why ebml-go: finishes the track's part of the file (the file is closed when the last writer is); no effect on the recorder's state
+//@   modifies nothing
+//@
+//@ func (*diskConn).close
+//@   safe
+//@   ematch
+//@   props C20 C12
+//@   requires nonnil: conn != nil
+//@   -- type invariant of a recording connection (assumed): its tracks are real, belong to it and have a publisher
+//@   assume tracks: forall k int :: 0 <= k && k < len(conn.tracks) ==> wellformed(conn.tracks[k]) && conn.tracks[k] != nil && conn.tracks[k].remote != nil && conn.tracks[k].conn == conn
+//@   modifies *
+//@   -- first loop: every track is flushed (this may open the file and create writers); the list of tracks stays as it was
+//@   invariant loop 1 range: -1 <= rangeindex$1 && rangeindex$1 < len(old(conn.tracks)) && conn != nil && same(conn.tracks, old(conn.tracks))
+//@   invariant loop 1 tracks: forall k int :: 0 <= k && k < len(old(conn.tracks)) ==> old(conn.tracks)[k] == old(conn.tracks[k]) && wellformed(old(conn.tracks)[k])
+//@        && old(conn.tracks)[k] != nil && old(conn.tracks)[k].remote != nil && old(conn.tracks)[k].conn == conn
+//@   -- second loop: every writer is closed, and nothing creates a new one
+//@   invariant loop 2 range: -1 <= rangeindex$2 && rangeindex$2 < len(old(conn.tracks)) && conn != nil && same(conn.tracks, old(conn.tracks))
+//@   invariant loop 2 tracks: forall k int :: 0 <= k && k < len(old(conn.tracks)) ==> old(conn.tracks)[k] == old(conn.tracks[k]) && wellformed(old(conn.tracks)[k])
+//@        && old(conn.tracks)[k] != nil
+//@   invariant loop 2 collected: len(tracks) == rangeindex$2 + 1 && (fresh(tracks) || isnil(tracks)) && (forall k int :: 0 <= k && k <= rangeindex$2 ==> tracks[k] == old(conn.tracks[k]))
+//@   invariant loop 2 closed-so-far: forall k int :: 0 <= k && k <= rangeindex$2 ==> old(conn.tracks)[k].writer == nil
+//@   ensures all-closed: forall k int :: 0 <= k && k < len(result) ==> result[k] != nil && result[k].writer == nil
+//@   ensures all-tracks: len(result) == len(old(conn.tracks)) && (forall k int :: 0 <= k && k < len(result) ==> result[k] == old(conn.tracks[k]))
+//@   ensures no-file: conn.file == nil
+//@
 //@ func requestKeyframe
 //@   trusted
 //@   why diskwriter.go: rate-limited PLI request; touches kfRequested only
